@@ -9,7 +9,7 @@ the same notifications, and the text the server analyses (leaf tokens of glas/sy
 Scenario space (all positions valid for the client's document at that moment, start <= end):
   documents  = sequences of <= D symbols over {a, b, LF, e-acute (2 bytes / 1 UTF-16 unit), U+1F600 (4 bytes / 2 units), CRLF}
   change     = (start, end, inserted text in {"", x, e-acute, LF, U+1F600, CRLF, xy})
-  shapes     = one change | two changes in ONE notification | two notifications with one change each
+  shapes     = one change | two changes in ONE notification | two notifications with one change each | a full-text change mixed with ranged ones in one notification
 One-change scenarios are enumerated exhaustively for documents of <= D1 symbols; two-change scenarios take every first change and a seeded
 sample of second changes (a stale line map after the first change shows when the second change addresses the edited line)."""
 import os, json, random, itertools, multiprocessing
@@ -44,6 +44,8 @@ def positions(doc):
 
 
 def apply(doc, ch):
+    if ch[0] is None:
+        return ch[6]                      # full-text change (no range)
     (s_off, e_off, text) = ch[4], ch[5], ch[6]
     return doc[:s_off] + text + doc[e_off:]
 
@@ -79,6 +81,18 @@ def scenarios(tier, seed):
                 for ch2 in rnd.sample(c2s, min(K2, len(c2s))):
                     out.append((doc, [[ch1, ch2]]))
                     out.append((doc, [[ch1], [ch2]]))
+    # a full-text change and ranged changes mixed in ONE notification (the ranged ones address the replaced text)
+    full = lambda t: (None, None, None, None, None, None, t)
+    for n in range(0, D2 + 1):
+        for syms in itertools.product(ALPHA, repeat=n):
+            doc = ''.join(syms)
+            c1s = list(changes_for(doc))
+            for ch in rnd.sample(c1s, min(6 if tier == 'quick' else 20, len(c1s))):
+                out.append(('zz\n', [[full(doc), ch]]))
+                d1 = apply(doc, ch)
+                c2 = rnd.choice(list(changes_for(d1)))
+                out.append(('zz\n', [[full(doc), ch, c2]]))
+                out.append((doc, [[ch, full(d1), c2]]))
     # larger documents, seeded
     for _ in range(2000 if tier == 'quick' else 20000):
         n = rnd.randint(3, 6)
@@ -112,7 +126,7 @@ def _worker(args):
             for n in notifs:
                 ver += 1
                 s.notify('textDocument/didChange', {'textDocument': {'uri': uri, 'version': ver},
-                                                    'contentChanges': [{'range': {'start': {'line': c[0], 'character': c[1]}, 'end': {'line': c[2], 'character': c[3]}}, 'text': c[6]} for c in n]})
+                                                    'contentChanges': [({'range': {'start': {'line': c[0], 'character': c[1]}, 'end': {'line': c[2], 'character': c[3]}}, 'text': c[6]} if c[0] is not None else {'text': c[6]}) for c in n]})
             txt, raw = s.server_text()
             want = expected(doc, notifs)
             if txt != want:
@@ -146,6 +160,9 @@ def replay_one(binary, cex):
     for n in cex['notifications']:
         nn = []
         for (l1, c1, l2, c2, t) in n:
+            if l1 is None:
+                ch = (None, None, None, None, None, None, t)
+                nn.append(ch); d = apply(d, ch); continue
             pm = dict(positions(d))
             ch = (l1, c1, l2, c2, pm[(l1, c1)], pm[(l2, c2)], t)
             nn.append(ch); d = apply(d, ch)
